@@ -101,6 +101,15 @@ def action_check(index: RepoIndex, rep, rule: str) -> None:
               'the environment is modified before the action is checked '
               f'(`{src(early[0].stmt) if early else ""}`): a rejected action would not leave '
               'everything unchanged', 'nothing stored before the check')
+    # `action in self.actions` rejects numbers only if Action is a plain enum: members of an
+    # IntEnum (or an enum mixed with int) compare equal to integers, booleans and floats
+    acls = index.cls('gym_gridverse/action.py', 'Action')
+    bases = [b_.split('.')[-1] for b_ in acls.bases]
+    rep.check(bases == ['Enum'], rule, 'gym_gridverse/action.py', 'Action', acls.node.lineno,
+              f'class Action({", ".join(acls.bases)})',
+              f'Action derives from {acls.bases}: a number equal to a member\'s value passes the '
+              f'membership test of the action space, so an action outside the space is not '
+              f'rejected with ValueError', 'Action is a plain Enum')
     m = index.func(SPACES, 'ActionSpace.contains')
     b = m.body()
     p = m.node.args.args[1].arg
@@ -272,6 +281,30 @@ def space_sets(index: RepoIndex, rep, rule: str) -> None:
                       f'{cname} {attr} duplicate-free')
 
 
+def spaces_immutable(index: RepoIndex, rep, rule: str) -> None:
+    """what a space declares is fixed by its constructor: no other method or property of
+    StateSpace / ObservationSpace / ActionSpace modifies the space (a derived quantity that
+    extends `self.object_types` in place makes `contains` accept states it rejected before)"""
+    from ..effects import Effects
+    eff = Effects(index)
+    for cname in ('StateSpace', 'ObservationSpace', 'ActionSpace'):
+        c = index.cls(SPACES, cname)
+        for mname, m in sorted(c.methods.items()):
+            if mname == '__init__':
+                continue
+            sm = eff.summ.get(m.qualname)
+            if sm is None:
+                continue
+            me = m.node.args.args[0].arg if m.node.args.args else 'self'
+            sites = [t for _, t in sm.mut_sites.get(me, [])]
+            rep.check(me not in sm.mut_params, rule, SPACES, m.short, m.node.lineno,
+                      '; '.join(sites)[:160] or m.short,
+                      f'{m.short} modifies the space it belongs to ({"; ".join(sites)[:120]}): '
+                      f'what the space declares changes after construction, so membership '
+                      f'depends on which derived quantities were read before',
+                      f'{m.short} leaves the space alone')
+
+
 def membership(index: RepoIndex, rep, rule: str) -> None:
     for cname, kind, facets in (('StateSpace', 'state', FACETS_STATE),
                                 ('ObservationSpace', 'obs', FACETS_OBS)):
@@ -323,6 +356,7 @@ def membership(index: RepoIndex, rep, rule: str) -> None:
                              f'{"accepted" if bad[2] else "rejected"}' if bad else ''),
                           f'obs {axis} bounds half-open')
     space_sets(index, rep, rule)
+    spaces_immutable(index, rep, rule)
     # Area.contains is two-sided on both coordinates
     f = index.func('gym_gridverse/geometry.py', 'Area.contains')
     b = f.body()
